@@ -18,8 +18,8 @@ SPEC = {
     "assumptions": [
         "table payload serialisers (T::write) are abstract: the writer model starts from the serialised buffers",
         "main theorem: the table map has exactly one head whose checkSumAdjustment placeholder is zero (what HeadTable::write produces); "
-        "tags are u32; in a release build fewer than 4096 tables (above that the u16 search-range arithmetic of write_offset_table "
-        "wraps: known finding; a debug build panics and is covered without the bound); each has a _needed witness in Props/C09.v",
+        "tags are u32; each has a _needed witness in Props/C09.v; no bound on the number of tables (4096 or more are refused with BadValue "
+        "since fix c89f93a: C09_too_many_tables_refused)",
         "read-back theorem: fewer than 4096 tables, file shorter than 2^64, payload bytes in [0,256)",
     ],
     "rule": "whole_font on HashMap providers: head (54 bytes, random fields) + maxp (v0.5/v1.0) + 0-8 tables of 0-39 bytes with pool/"
